@@ -407,7 +407,13 @@ fn run_both(ctx: &mut Ctx, c22: bool) {
                                                 })
                                             })
                                             .collect();
-                                        let rel_features = if !deriving.is_empty() && deriving.iter().all(|c| c.body.iter().any(|l| matches!(l, Lit::Assign(..)))) {
+                                        // "only through computed-column rules": without the relation's clauses that compute a
+                                        // column the tuple is not derivable at all (this also covers tuples that a recursive
+                                        // clause re-derives from themselves: such a derivation is not well-founded on its own)
+                                        let without_computed: Vec<Clause> = p.clauses.iter().filter(|c| !(c.head == rel && c.body.iter().any(|l| matches!(l, Lit::Assign(..))))).cloned().collect();
+                                        let needs_computed = without_computed.len() < p.clauses.len()
+                                            && refdl::evaluate(&without_computed, &p.edb, false).map_or(false, |m| !m.db.get(&rel).map_or(false, |r| r.contains(tup)));
+                                        let rel_features = if needs_computed || (!deriving.is_empty() && deriving.iter().all(|c| c.body.iter().any(|l| matches!(l, Lit::Assign(..))))) {
                                             "only-derivable-through-computed-column-rules".to_string()
                                         } else {
                                             deriving.iter().map(|c| clause_features(c)).collect::<BTreeSet<_>>().into_iter().collect::<Vec<_>>().join("|")
